@@ -567,8 +567,9 @@ class PFITSFile:
             otherwise in ``uint8`` with shape ``(nsamps, nchan)``.
         """
         sdata = self.read_subint(isub, scloffs=scloffs, weights=weights)
-        if self.sub_hdr.poln_state == "Coherence":
-            scale = 1.0 / np.sqrt(2.0)
+        if self.sub_hdr.poln_state in {"Coherence", "PPQQ"}:
+            # float32 factor: a float64 scalar would promote the documented float32 result
+            scale = np.float32(1.0 / np.sqrt(2.0))
             data_shape = (self.sub_hdr.subint_samples, self.sub_hdr.nchans)
             if poln_select == 1:
                 data = np.zeros(data_shape, dtype=np.float32)
